@@ -85,3 +85,40 @@ func Replay(choices []int32) func(n int) int {
 		return 0
 	}
 }
+
+// Assign spreads enumeration jobs with the given cost estimates over n shards (longest
+// processing time first, deterministic) and returns the indices of shard's jobs.
+func Assign(est []int64, shard, n int) []int {
+	if n <= 1 {
+		out := make([]int, len(est))
+		for i := range out {
+			out[i] = i
+		}
+		return out
+	}
+	idx := make([]int, len(est))
+	for i := range idx {
+		idx[i] = i
+	}
+	// insertion sort by descending estimate, stable
+	for i := 1; i < len(idx); i++ {
+		for j := i; j > 0 && est[idx[j]] > est[idx[j-1]]; j-- {
+			idx[j], idx[j-1] = idx[j-1], idx[j]
+		}
+	}
+	load := make([]int64, n)
+	var mine []int
+	for _, i := range idx {
+		best := 0
+		for s := 1; s < n; s++ {
+			if load[s] < load[best] {
+				best = s
+			}
+		}
+		load[best] += est[i] + 1
+		if best == shard {
+			mine = append(mine, i)
+		}
+	}
+	return mine
+}
